@@ -809,7 +809,7 @@ func levelB(r *ev.Run, rng *rand.Rand) {
 
 func main() {
 	r := ev.New("C03", "exploration")
-	r.Rule("level A: worlds of 2-4 contenders on one leader key, 25-40 PRNG events from {campaign(+/-keep-alive), resign, stop/start keep-alive, natural expiry wait, owner deletes key, crash+restart, external delete (late)}, guarded writes + timestamp requests by every member after every event; distinct = event string per world. gated: old holder's window save + id window txn parked while the record is revoked / deleted / resigned and a new member campaigns, all release orders x start orders. queued behind save: a's reset saves the window with the reply held back, requests issued meanwhile, a's lease expires, b campaigns and serves, reply released. slow grant: member a's LeaseGrant reply delayed by 35/60/80% of the lease, no keep-alive, member b campaigns until it wins, then a is probed. level B: real server resign rounds hammered with metadata RPCs")
+	r.Rule("level A: worlds of 2-4 contenders on one leader key, 25-40 PRNG events from {campaign(+/-keep-alive), resign, stop/start keep-alive, natural expiry wait, owner deletes key, crash+restart, external delete (late)}, guarded writes + timestamp requests by every member after every event; distinct = event string per world. gated: old holder's window save + id window txn parked while the record is revoked / deleted / resigned and a new member campaigns, all release orders x start orders. usurped owner: a's leader record deleted and taken by b (which persists a window far ahead) while a's lease is valid, a's update must be refused and a never grants at or beyond its last owned window. queued behind save: a's reset saves the window with the reply held back, requests issued meanwhile, a's lease expires, b campaigns and serves, reply released. slow grant: member a's LeaseGrant reply delayed by 35/60/80% of the lease, no keep-alive, member b campaigns until it wins, then a is probed. level B: real server resign rounds hammered with metadata RPCs")
 	r.Assume("ground truth is etcd's committed history in revision order; external deletion of a live leader key is only used to judge guarded writes (3), never (2)/(4)")
 	r.Assume("a member whose lease Grant failed keeps Check()==true until its next campaign (lease.go); Grant failures are not injected, see DESIGN C03 Limits")
 	srv.Quiet()
@@ -823,6 +823,9 @@ func main() {
 	closeVsKeepAlive(r, e, rng)
 	if r.Violations() == 0 {
 		resignHandOver(r, e, rng)
+	}
+	if r.Violations() == 0 {
+		usurpedOwner(r, e, rng.Int63())
 	}
 	// worlds in parallel so that lease expiry waits overlap
 	nworlds := r.Pick(16, 64)
